@@ -265,7 +265,7 @@ func genSamplers(check string) func(r *Rng, tier string, p *Plan) {
 		nEv := r.Range(1, 5)
 		for i := 0; i < nEv; i++ {
 			at := r.I64n(horizon) / 1000 * 1000
-			switch r.Intn(4) {
+			switch r.Intn(5) {
 			case 0:
 				op := Op{K: "reload", At: at, S: "rules", N: int64(r.Intn(2))}
 				if r.Bool(0.5) {
@@ -274,6 +274,10 @@ func genSamplers(check string) func(r *Rng, tier string, p *Plan) {
 					op.M, op.I, op.J, op.T = 1, int64(2000+i), int64(r.Intn(4)), PickOf(r, "envA", "envB", "envC")
 				}
 				p.Add(op)
+			case 2:
+				// two fresh traces of one environment on different workers, decided at
+				// the same time: both workers are in the creation of the same sampler
+				p.Add(Op{K: "create_race", At: at, I: int64(3000 + 300*i), J: int64(r.Intn(4)), S: PickOf(r, "envA", "envB", "envC")})
 			case 1:
 				// a fresh trace (index beyond the others) in some environment, whose
 				// decision makes its worker create the sampler lazily while the peer
@@ -516,7 +520,7 @@ func init() {
 	real := []string{"sample.SamplerFactory", "all sampler implementations", "dynsampler-go", "collect.InMemCollector + workers (lazy sampler creation, reload fan-out)"}
 	stub := []string{"config (MockConfig with a generated multi-environment rules map)", "peers (MockPeers firing the registered callback)", "transmission (recording double)", "clock (SimClock)", "metrics (MockMetrics)"}
 	Register(&Check{ID: "C12", World: "A/samplers", Gen: genSamplers("C12"), Run: runSamplers, Simplify: simplifySamplers,
-		OwnProbes: []string{"pair_same_definition_across_workers", "pair_different_definition_same_scope", "pair_across_scopes", "decision_while_reload_half_done"}, Real: real, Stub: stub})
+		OwnProbes: []string{"pair_same_definition_across_workers", "pair_different_definition_same_scope", "pair_across_scopes", "decision_while_reload_half_done", "two_workers_in_the_same_sampler_creation"}, Real: real, Stub: stub})
 	Register(&Check{ID: "C13", World: "A/samplers", Gen: genSamplers("C13"), Run: runSamplers, Simplify: simplifySamplers,
 		OwnProbes: []string{"cluster_size_goal_checked_multi_peer", "fixed_goal_checked", "peer_count_change", "peer_lookup_overtaken_by_membership_change"}, Real: real, Stub: stub})
 }
